@@ -148,6 +148,90 @@ func genC03(g *Gen) {
 			g.Case("p2i", J{"T": t, "nodes": nodes})
 		}
 	}
+	// masks whose stored levels follow a rule, with paths of regular shape
+	for _, h := range structuredHeights(g) {
+		for _, t := range structuredMasks(r, h) {
+			g.Case("p2i", J{"T": t, "nodes": structuredNodes(r, h)})
+		}
+	}
+}
+
+// structuredMasks: level masks of height h whose stored levels follow a RULE (a closed form or a shortcut in the
+// index computation is keyed on such shapes): every p-th level at every phase, all levels from k down to the
+// leaves, the levels down to k plus the leaves, one block of adjacent levels plus the leaves.
+func structuredMasks(r *rand.Rand, h int) []int64 {
+	top := int64(1) << uint(h)
+	seen := map[int64]bool{}
+	var out []int64
+	add := func(t int64) {
+		t |= top
+		if !seen[t] {
+			seen[t] = true
+			out = append(out, t)
+		}
+	}
+	for p := 2; p <= 8; p++ {
+		for ph := 0; ph < p; ph++ {
+			var t int64
+			for l := ph; l <= h; l += p {
+				t |= 1 << uint(l)
+			}
+			add(t)
+			// counted from the leaves
+			t = 0
+			for l := h - ph; l >= 0; l -= p {
+				t |= 1 << uint(l)
+			}
+			add(t)
+		}
+	}
+	for k := 0; k < h; k++ {
+		add(top<<1 - 1<<uint(k)) // levels k..h
+		add(1<<uint(k+1) - 1)    // levels 0..k and the leaves
+		w := 1 + r.Intn(3)       // a block of w levels starting at k, and the leaves
+		add((1<<uint(w) - 1) << uint(k) & (top - 1))
+	}
+	return out
+}
+
+// structuredNodes: paths of every length made of all ones, all zeros, alternating bits, ones then zeros, zeros
+// then ones, plus dense and sparse random ones.
+func structuredNodes(r *rand.Rand, h int) [][]int64 {
+	var nodes [][]int64
+	for l := 0; l <= h; l++ {
+		all := int64(1)<<uint(l) - 1
+		alt := int64(0x5555555555555555) & all
+		nodes = append(nodes, []int64{int64(l), 0}, []int64{int64(l), all}, []int64{int64(l), alt}, []int64{int64(l), all &^ alt})
+		if l >= 2 {
+			k := uint(1 + r.Intn(l-1))
+			nodes = append(nodes, []int64{int64(l), all >> k}, []int64{int64(l), all &^ (all >> k)}, []int64{int64(l), all &^ 1}, []int64{int64(l), all &^ 2})
+		}
+	}
+	for c := 0; c < 30; c++ {
+		nd := randNode(r, h)
+		all := int64(1)<<uint(nd[0]) - 1
+		switch c % 3 {
+		case 0:
+			nd[1] |= r.Int63() & all
+		case 1:
+			nd[1] &= r.Int63()
+		}
+		nodes = append(nodes, nd)
+	}
+	return nodes
+}
+
+// structuredHeights: the heights the structured masks are built for (quick: the tallest, three multiples of 4 and
+// one that changes with the seed).
+func structuredHeights(g *Gen) []int {
+	if g.Quick() {
+		return []int{30, 28, 24, 20, 9 + int(g.Seed%10)}
+	}
+	var hs []int
+	for h := 9; h <= 30; h++ {
+		hs = append(hs, h)
+	}
+	return hs
 }
 
 // ---------------------------------------------------------------- C04
@@ -227,6 +311,10 @@ func execEncDec(in In, em *Emitter) {
 
 func randMask(r *rand.Rand, h int) int64 {
 	top := int64(1) << uint(h)
+	if h >= 3 && r.Intn(4) == 0 { // stored levels that follow a rule
+		ms := structuredMasks(r, h)
+		return ms[r.Intn(len(ms))]
+	}
 	switch r.Intn(5) {
 	case 0:
 		return top<<1 - 1
@@ -575,6 +663,10 @@ func bitsToSearch(h int, b []int64) uint64 {
 func execPathW(in In, em *Emitter) {
 	h := in.Int("h")
 	nl := toList(in.get("nodes"))
+	var hs []int64
+	if in.has("hs") {
+		hs = toIs(in.get("hs"))
+	}
 	ws := make([]uint64, len(nl))
 	o := J{}
 	abn := guard(func() {
@@ -583,6 +675,10 @@ func execPathW(in In, em *Emitter) {
 		var str [][]int64
 		for j, x := range nl {
 			b := toIs(x)
+			h := h
+			if hs != nil {
+				h = int(hs[j])
+			}
 			p := bmtree.NewPath(bitsToSearch(h, b), int32(len(b)), int32(h))
 			ws[j] = p
 			w = append(w, wordOnes(p))
@@ -656,6 +752,58 @@ func genC10(g *Gen) {
 			pairs = append(pairs, []int64{int64(r.Intn(len(nodes))), int64(r.Intn(len(nodes)))})
 		}
 		g.Case("pathw", J{"h": h, "nodes": nodes, "pairs": pairs})
+	}
+	// prefixes with exactly one / two 1-bits or 0-bits at every pair of positions (long runs of equal bits between
+	// them), full length and shorter, on the tallest trees
+	for _, hl := range [][2]int{{32, 32}, {32, 25}, {31, 31}, {30, 19}, {24, 24}} {
+		h, l := hl[0], hl[1]
+		var nodes [][]int64
+		for i := 0; i < l; i++ {
+			for j := i; j < l; j++ {
+				if g.Quick() && h != 32 && (i+j)%3 != int(g.Seed%3) {
+					continue
+				}
+				b := make([]int64, l)
+				b[i], b[j] = 1, 1
+				nodes = append(nodes, b)
+				c := make([]int64, l)
+				for k := range c {
+					c[k] = 1 - b[k]
+				}
+				nodes = append(nodes, c)
+			}
+		}
+		g.Case("pathw", J{"h": h, "nodes": nodes, "pairs": [][]int64{}})
+	}
+	// calls in a row on trees of DIFFERENT heights whose path words share their searching bits, their length, their
+	// prefix value or their mask: same prefix on several heights; the prefix shifted so that the left-aligned
+	// searching bits stay the same; same height and prefix bits with different lengths
+	for c := 0; c < g.N(60, 2000); c++ {
+		var nodes [][]int64
+		var hs []int64
+		l := 1 + r.Intn(31)
+		if c%2 == 0 {
+			l = 16 + r.Intn(16)
+		}
+		lz := 1 + r.Intn(l) // leading zeros of the prefix
+		v := r.Int63n(1<<uint(l-lz)+1) | 1<<uint(l-lz)>>1
+		for k := 0; k <= lz && k <= 3; k++ { // prefix v<<k on height h-k: the same searching bits
+			for _, h := range []int{32 - k, 31 - k, l + lz - k} {
+				if h >= l && h <= 32 && v<<uint(k) < 1<<uint(l) {
+					nodes = append(nodes, valBits(l, v<<uint(k)))
+					hs = append(hs, int64(h))
+				}
+			}
+		}
+		for h := l; h <= 32; h += 1 + r.Intn(4) { // the same prefix on several heights, there and back
+			nodes = append(nodes, valBits(l, v))
+			hs = append(hs, int64(h))
+		}
+		for i := len(nodes) - 1; i >= 0; i -= 2 {
+			nodes = append(nodes, nodes[i])
+			hs = append(hs, hs[i])
+		}
+		g.Case("pathw", J{"h": 32, "hs": hs, "nodes": nodes, "pairs": [][]int64{}})
 	}
 	// random related pairs on tall trees
 	for c := 0; c < g.N(150, 5000); c++ {
